@@ -36,7 +36,7 @@ CONSTANTS Oracle,      \* set of strings
           WithRewards, \* BOOLEAN: staking rewards are allocated (Reward)
           WithSlashOp, \* BOOLEAN: keeper-level Slash(o) is part of the alphabet
           WithObjects, \* BOOLEAN: ObjectAges (real end-block slashing path) is part of the alphabet
-          MaxBonds, MaxGovs, MaxMops, MaxAges, MaxTime, MaxRewards
+          MaxBonds, MaxGovs, MaxMops, MaxAges, MaxOps, MaxTime, MaxRewards   \* MaxOps bounds nm + na
 
 VARIABLES reg, online, approved, bridger, ext, val, rec, slashTimes,   \* oracle records (0x12) + proposal list (0x38)
           bidx, eidx,                                                  \* reverse indexes (0x13, 0x14)
@@ -406,7 +406,7 @@ C13_JoinedOnActivation == [][A_C13_JoinedOnActivation]_vars
 ---------------------------------------------------------------------------
 (* model-checking plumbing *)
 View == svars
-Bounded == nb' <= MaxBonds /\ ng' <= MaxGovs /\ nm' <= MaxMops /\ na' <= MaxAges /\ nt' <= MaxTime /\ nr' <= MaxRewards
+Bounded == nb' <= MaxBonds /\ ng' <= MaxGovs /\ nm' <= MaxMops /\ na' <= MaxAges /\ nm' + na' <= MaxOps /\ nt' <= MaxTime /\ nr' <= MaxRewards
 EdgeDump == /\ IF op.name = "Init" \/ op'.res = "ok"
                THEN PrintT(<<"EDGE", ToJson([from |-> Abs, op |-> op', to |-> Abs'])>>)
                ELSE TRUE
